@@ -235,7 +235,7 @@ func finishVictim(c *vh.Case, victim *netx.Node, trace *workTrace, startWork *bi
 		c.Oracle("tip-work-decreased", "final total work %v below initial %v", end, startWork)
 	}
 	if !victim.Close() {
-		c.Oracle("node-not-alive", "Syncer.Run did not return within 10 s after Close")
+		c.Oracle("node-not-alive", "Syncer.Close / Run did not return within 15 s")
 	}
 }
 
